@@ -100,7 +100,6 @@ pub enum Target {
     /// a non UTF-8 file name
     NonUtf8(u16),
     /// a name whose only dot is the leading one (`.hidden` file for odd numbers, `.cache` directory for even ones)
-    #[serde(alias = "LeadingDot")]
     LeadingDot(u16),
 }
 
@@ -393,7 +392,8 @@ impl C12 {
                 Target::NonUtf8(i) => {
                     use std::os::unix::ffi::OsStrExt;
                     let d = &dirs[*i as usize % dirs.len()];
-                    let p = root.join(trees::rel_path(d, None)).join(std::ffi::OsStr::from_bytes(b"bad\xFFname.txt"));
+                    // (odd numbers: only the extension is not UTF-8 - it is not the extension-less file `note`)
+                    let p = root.join(trees::rel_path(d, None)).join(std::ffi::OsStr::from_bytes(if i % 2 == 1 { &b"note.\xFF"[..] } else { &b"bad\xFFname.txt"[..] }));
                     let _ = std::fs::write(&p, b"x");
                     (p, Some(false))
                 }
